@@ -18,7 +18,11 @@ import time
 import traceback
 from pathlib import Path
 
-os.environ.setdefault("PYTHONHASHSEED", "0")
+if os.environ.get("PYTHONHASHSEED") != "0":
+    # str hashing (hence set / dict-of-set iteration order inside koreo and the harness) must not vary from
+    # run to run: every run, and every replay, sees the same orders.  Takes effect only at interpreter start.
+    os.environ["PYTHONHASHSEED"] = "0"
+    os.execv(sys.executable, [sys.executable] + sys.argv)
 HERE = Path(__file__).resolve().parent
 sys.path.insert(0, str(HERE))
 
@@ -46,7 +50,7 @@ class WatchdogTimeout(Exception):
 
 def arm_watchdog(tier: str, fired: list):
     import signal
-    budget = float(os.environ.get("VERIF_BUDGET_S", "2400" if tier == "quick" else "14400"))
+    budget = float(os.environ.get("VERIF_BUDGET_S", "1800" if tier == "quick" else "14400"))
 
     def on_alarm(_sig, _frm):
         fired.append(time.time())
